@@ -271,6 +271,65 @@ func runTunnels(cfg *runCfg) error {
 				fmt.Sprintf("a %s tunnel with useEncryption=%v useCompression=%v does not carry bytes: the visitor's and the server's wrapper stacks are layered differently", cb.kind, cb.enc, cb.comp), k)
 		}
 	}
+	// ---- (3) control-channel interop matrix: transport.protocol x transport.tls.enable ----
+	// after Login/LoginResp both ends switch to the token-keyed control cipher; a tcp proxy must get registered
+	// (phase running: NewProxy/NewProxyResp crossed the encrypted control channel) and carry bytes
+	{
+		kcpPort, quicPort := hx.FreeUDPPort(addr), hx.FreeUDPPort(addr)
+		s2, err := hx.StartServer(addr, func(c *v1.ServerConfig) { c.KCPBindPort = kcpPort; c.QUICBindPort = quicPort })
+		if err != nil {
+			return err
+		}
+		defer s2.Close()
+		type ic struct {
+			proto string
+			tls   bool
+		}
+		for _, c := range []ic{{"tcp", false}, {"tcp", true}, {"websocket", false}, {"websocket", true}, {"kcp", false}, {"kcp", true}, {"quic", true}} {
+			cases++
+			c := c
+			name := fmt.Sprintf("c17-i-%s-%v", c.proto, c.tls)
+			rp := hx.FreePort(addr)
+			pc := &v1.TCPProxyConfig{}
+			pc.Name, pc.Type = name, "tcp"
+			pc.LocalIP, pc.LocalPort, pc.RemotePort = addr, tcpEcho.Port(), rp
+			cl, err := s2.StartClient([]v1.ProxyConfigurer{pc}, nil, func(cc *v1.ClientCommonConfig) {
+				cc.Transport.Protocol = c.proto
+				t := c.tls
+				cc.Transport.TLS.Enable = &t
+				switch c.proto {
+				case "kcp":
+					cc.ServerPort = kcpPort
+				case "quic":
+					cc.ServerPort = quicPort
+				}
+			})
+			ok := false
+			why := "client did not start"
+			if err == nil {
+				why = "the proxy never reached phase running (nothing crosses the control channel after the login)"
+				if cl.WaitProxyRunning(name, 4*time.Second) {
+					why = "the tunnel does not echo"
+					if conn, err := net.DialTimeout("tcp", net.JoinHostPort(addr, fmt.Sprint(rp)), 2*time.Second); err == nil {
+						payload := []byte("interop-" + name)
+						_, _ = conn.Write(payload)
+						_ = conn.SetReadDeadline(time.Now().Add(2 * time.Second))
+						buf := make([]byte, len(payload))
+						_, rerr := io.ReadFull(conn, buf)
+						ok = rerr == nil && bytes.Equal(buf, payload)
+						conn.Close()
+					}
+				}
+				cl.Close()
+			}
+			k := fmt.Sprintf("interop protocol=%s tls=%v ok=%v", c.proto, c.tls, ok)
+			dist[k]++
+			if !ok {
+				fail("tunnels:control-interop-"+c.proto, fmt.Sprintf("frpc with transport.protocol=%s transport.tls.enable=%v against frps of the same build: %s", c.proto, c.tls, why), k)
+			}
+		}
+	}
+
 	// two overlapping users through a sudp visitor (owner side: client/proxy/sudp.go reader loop)
 	for _, cb := range combos {
 		if cb.kind != "sudp" || !cb.enc || !cb.comp {
